@@ -152,16 +152,18 @@ def gen_recurring_case(seed: int, rnd: random.Random) -> SchedCase:
     zc = ZoneCtx(rnd.choice(SHAPE_ZONES))
     r = rnd.random()
     chosen = None
-    if zc.trans and r < 0.7:
-        chosen = rnd.choice(zc.trans)
+    # the exported zone tables end in 2038: histories start early enough for year-long searches to stay inside
+    trs = [x for x in zc.trans if x[0] < 2_050_000_000]
+    if trs and r < 0.7:
+        chosen = rnd.choice(trs)
         t = chosen[0]
         epoch = (t - rnd.randint(1, 4) * 86400 + rnd.randint(0, 86399)) * NS_S
     elif r < 0.85:
-        y = rnd.randint(2001, 2036)
+        y = rnd.randint(2001, 2034)
         import datetime as dtm
         epoch = int((dtm.datetime(y, 12, 29, rnd.randint(0, 23)) - dtm.datetime(1970, 1, 1)).total_seconds()) * NS_S
     else:
-        epoch = rnd.randrange(946_684_800, 2_100_000_000) * NS_S
+        epoch = rnd.randrange(946_684_800, 2_050_000_000) * NS_S
     epoch += rnd.choice([0, 0, 123_456_000])
     executor = rnd.choice(['sync', 'async'])
     lines: list[str] = []
@@ -178,10 +180,57 @@ def gen_recurring_case(seed: int, rnd: random.Random) -> SchedCase:
             return ('interval', None if p[1] is None else p[1] // 1000 * 1000, p[2], p[3])
         return ('group', p[1], [snap(x) for x in p[2]])
     epoch = epoch // 1000 * 1000
+
+    def searchable(p) -> bool:
+        """an interval with a filter is searched step by step in an unbounded loop (known finding F7a): the histories
+        use only intervals whose filter admits one of the next 3000 grid points (judged by the independent filter
+        denotation, not by the code under test)"""
+        from oracle_prod import filt_allow
+        if p[0] == 'group':
+            return all(searchable(x) for x in p[2])
+        if p[0] != 'interval' or p[3] is None:
+            return True
+        start = epoch + 1000 if p[1] is None else p[1]
+        k0 = max(0, (epoch - start) // p[2])
+        return any(filt_allow(zc.name, p[3], start + (k0 + k) * p[2]) for k in range(3000))
+    # directed variants (two in five cases): a time of day inside the interval a clock change repeats / skips, with the
+    # job created (or first executed, a little late) at a moment at which the run of that day is still ahead
+    variant = {2: 'twice_late', 3: 'later_backward', 4: 'later_forward'}.get(seed % 5)
+    force_late = None
+    special = None
+    if variant and trs:
+        back = [x for x in trs if x[2] < x[1]]
+        fwd = [x for x in trs if x[2] > x[1]]
+        if variant == 'twice_late' and back:
+            t, a, b = chosen = rnd.choice(back)
+            w = ((t + b) + (a - b) // 2) % 86400           # wall clock reading in the middle of the repeated interval
+            special = ('time', w * NS_S, rnd.choice(['skip', 'earlier', 'later', 'after']), 'twice', None)
+            epoch = (t - rnd.randint(1, 3) * 86400 + rnd.randint(0, 3600)) * NS_S
+            force_late = rnd.choice([1_000, 500_000, 750_000])
+        elif variant == 'later_backward' and back:
+            t, a, b = chosen = rnd.choice(back)
+            w = ((t + b) + (a - b) // 2) % 86400
+            special = ('time', w * NS_S, rnd.choice(['skip', 'earlier', 'later', 'after']), rnd.choice(['later', 'twice']), None)
+            # created during the first pass, after the reading was shown for the first time
+            epoch = (t - (a - b) // 2 + rnd.randint(60, max(61, (a - b) // 2 - 60))) * NS_S
+        elif variant == 'later_forward' and fwd:
+            t, a, b = chosen = rnd.choice(fwd)
+            w = ((t + a) + (b - a) // 2) % 86400           # a reading inside the skipped interval
+            special = ('time', w * NS_S, rnd.choice(['later', 'after']), rnd.choice(['skip', 'earlier', 'later', 'twice']), None)
+            # created right after the clock jumped, before the moved run of that day
+            epoch = (t + rnd.randint(1, max(2, (b - a) // 2 - 60))) * NS_S
     n = rnd.randint(1, 3)
     for h in range(1, n + 1):
         p = snap(gen_producer(rnd, zc, epoch, rnd.randint(1, 2), filters=0.3, ops=('group',)))
-        if h == 1 and zc.trans and r < 0.7 and rnd.random() < 0.7:
+        for _ in range(20):
+            if searchable(p):
+                break
+            p = snap(gen_producer(rnd, zc, epoch, rnd.randint(1, 2), filters=0.3, ops=('group',)))
+        else:
+            p = ('interval', None, 3600 * NS_S, None)
+        if h == 1 and special is not None:
+            p = special
+        elif h == 1 and trs and r < 0.7 and rnd.random() < 0.7:
             # a time of day inside / at the edge of the interval the coming clock change skips or repeats
             from gen_prod import REPEATED, SKIPPED
             p = ('time', rnd.choice(zc.interesting_tods(rnd, chosen)) // 1000 * 1000, rnd.choice(SKIPPED), rnd.choice(REPEATED), None)
@@ -193,9 +242,13 @@ def gen_recurring_case(seed: int, rnd: random.Random) -> SchedCase:
     total = rnd.choice([3, 5, 8, 14]) * NS_DAY
     done = 0
     paused: set[int] = set()
+    # in half of the cases every wake-up of the loop is a little late, as on a real loop
+    late = [1_000, 500_000, 750_000][(seed // 8) % 3] if (seed // 4) % 2 == 1 else 0
+    if force_late is not None:
+        late = force_late
     while done < total:
         d = rnd.choice([6 * NS_HOUR, 12 * NS_HOUR, NS_DAY, 36 * NS_HOUR, 90 * NS_MIN])
-        emit(f'sleep {d}')
+        emit(f'sleepl {d} {late}' if late else f'sleep {d}')
         done += d
         if rnd.random() < 0.08:
             h = rnd.randint(1, n)
